@@ -1412,6 +1412,185 @@ func (g *vfGen) f8() {
 	}
 }
 
+// ------------------------------------------------------------------ directed scripts (model-tied)
+
+// fireLast delivers the most recently scheduled timeout
+func (g *vfGen) fireLast() bool {
+	n := g.n
+	if len(n.pending) == 0 || n.halted {
+		return false
+	}
+	ti := n.pending[len(n.pending)-1]
+	g.do(func() {
+		n.feed(fmt.Sprintf("tmo h=%d r=%d s=%d", ti.Height, ti.Round, ti.Step), func() { n.cs.handleTimeout(ti, n.cs.RoundState) }, nil)
+	})
+	return true
+}
+
+// quorumOf returns how many of the validators o (in this order) are needed so that their power,
+// plus base, exceeds two thirds of the total
+func (n *vfNode) quorumOf(o []int, base int64) int {
+	sum := base
+	for k, i := range o {
+		sum += n.powers[i]
+		if sum*3 > n.total()*2 {
+			return k + 1
+		}
+	}
+	return len(o) + 1
+}
+
+// f36: the unlock site of enterNewRound (stale lock after a round skip).  Proposal X in round 1 and
+// enough prevotes for X: the node locks X@1 and precommits it.  Then, while the node is still in
+// round 1, the complete prevote quorum of a later round r2 for another block Y (or nil): the vote
+// that completes the polka is also the one that gives +2/3 any, so the node skips to r2 - the
+// repaired enterNewRound releases the lock there (addVote's test needed vote.Round <= cs.Round).
+// Then +2/3-any prevotes of r3 > r2 (skip again, the node never prevotes in r2) and the Propose
+// timeout of r3: the repaired node prevotes nil, the old one its stale lock X.
+func (g *vfGen) f36() bool {
+	n := g.n
+	cs := n.cs
+	r := g.r
+	h := cs.Height
+	if !g.fireLast() || cs.Round != 1 || cs.Height != h || n.halted { // NewHeight -> round 1
+		return false
+	}
+	props := n.proposers(cs.state, cs.state.Validators, 1)
+	if props[0] == n.me {
+		return false
+	}
+	x := n.newBlock(r, "")
+	if !x.okC || x.block == nil {
+		return false
+	}
+	p1 := n.mkProposal(props[0], h, 1, 0, x.bid, true)
+	g.do(func() { n.feedMsg(msgInfo{&ProposalMessage{p1}, ""}, 1) })
+	g.mvBlockExact(x.id) // the node prevotes X; its own vote is fed back
+	o := n.others(r)
+	for k, q := 0, n.quorumOf(o, n.powers[n.me]); k < q && k < len(o); k++ {
+		g.mvVote(o[k], kproto.PrevoteType, h, 1, x.id, true, 1)
+	}
+	if cs.LockedBlock == nil || cs.LockedRound != 1 || cs.Round != 1 || cs.Height != h || n.halted {
+		n.o.Stat("f36:no-lock")
+		return false
+	}
+	// the polka of r2 while the node is in round 1
+	r2 := uint32(2 + r.Intn(2))
+	target := -1 // nil polka
+	if r.Chance(70) {
+		y := n.newBlock(r, "")
+		target = y.id
+	}
+	g.peerSeq++
+	peer := 10 + g.peerSeq
+	o = n.others(r)
+	for k, q := 0, n.quorumOf(o, 0); k < q && k < len(o); k++ {
+		g.mvVote(o[k], kproto.PrevoteType, h, r2, target, true, peer)
+	}
+	if cs.Round != r2 || cs.Height != h || n.halted {
+		n.o.Stat("f36:no-skip")
+		return false
+	}
+	if cs.LockedBlock == nil {
+		n.o.Stat("f36:released-at-skip")
+	} else {
+		n.o.Stat("f36:lock-kept-at-skip")
+	}
+	// +2/3 any of r3: skip again before the node prevotes in r2
+	r3 := r2 + 1 + uint32(r.Intn(2))
+	g.peerSeq++
+	peer = 10 + g.peerSeq
+	o = n.others(r)
+	for k, q := 0, n.quorumOf(o, 0); k < q && k < len(o); k++ {
+		tg := target
+		if k == q-1 || r.Chance(30) {
+			tg = -1
+			if target == -1 {
+				tg = x.id
+			}
+		}
+		g.mvVote(o[k], kproto.PrevoteType, h, r3, tg, true, peer)
+	}
+	if cs.Round != r3 || cs.Height != h || n.halted {
+		n.o.Stat("f36:no-second-skip")
+		return false
+	}
+	g.fireLast() // Propose timeout of r3: the node prevotes
+	if cs.LockedBlock == nil {
+		n.o.Stat("f36:released")
+	} else {
+		n.o.Stat("f36:stale-lock")
+	}
+	return true
+}
+
+// f37: the commit step is absorbing.  +2/3 precommits for a block the node does not hold: it enters
+// the commit step and waits for the block.  Then +2/3-any prevotes of a later round and / or a
+// +2/3 nil-precommit majority of a later round (the two triggers that used to pull the node into a
+// new round), then the block: the repaired node has stayed in the commit step and commits.
+func (g *vfGen) f37() bool {
+	n := g.n
+	cs := n.cs
+	r := g.r
+	h := cs.Height
+	if !g.fireLast() || cs.Round != 1 || cs.Height != h || n.halted { // NewHeight -> round 1
+		return false
+	}
+	b := n.newBlock(r, "")
+	if !b.okC || b.block == nil {
+		return false
+	}
+	cr := uint32(1 + r.Intn(2))
+	g.peerSeq++
+	peer := 10 + g.peerSeq
+	o := n.others(r)
+	for k := 0; k < len(o) && cs.Step != cstypes.RoundStepCommit && cs.Height == h && !n.halted; k++ {
+		g.mvVote(o[k], kproto.PrecommitType, h, cr, b.id, true, peer)
+	}
+	if cs.Step != cstypes.RoundStepCommit || cs.Height != h || n.halted {
+		n.o.Stat("f37:no-commit-step")
+		return false
+	}
+	kind := r.Intn(3)
+	if kind != 1 { // +2/3 any prevotes of a later round
+		pr := cs.Round + 1 + uint32(r.Intn(2))
+		g.peerSeq++
+		peer = 10 + g.peerSeq
+		o = n.others(r)
+		for k, q := 0, n.quorumOf(o, 0); k < q && k < len(o) && cs.Height == h && !n.halted; k++ {
+			tg := -1
+			if r.Chance(50) {
+				tg = b.id
+			}
+			g.mvVote(o[k], kproto.PrevoteType, h, pr, tg, true, peer)
+		}
+	}
+	if kind != 0 && cs.Height == h && !n.halted { // a +2/3 nil precommit majority of a later round
+		pr := cs.Round + 1
+		g.peerSeq++
+		peer = 10 + g.peerSeq
+		o = n.others(r)
+		for k, q := 0, n.quorumOf(o, 0); k < q && k < len(o) && cs.Height == h && !n.halted; k++ {
+			g.mvVote(o[k], kproto.PrecommitType, h, pr, -1, true, peer)
+		}
+	}
+	if cs.Height != h || n.halted {
+		return false
+	}
+	if cs.Step == cstypes.RoundStepCommit {
+		n.o.Stat("f37:stayed")
+	} else {
+		n.o.Stat("f37:left-commit-step")
+	}
+	g.mvBlockExact(b.id)
+	if cs.Height == h+1 {
+		n.o.Stat("f37:committed")
+	} else {
+		n.o.Stat("f37:commit-forgotten")
+	}
+	return true
+}
+
 // ------------------------------------------------------------------ the test
 
 func TestVerifC03(t *testing.T) {
@@ -1424,11 +1603,33 @@ func TestVerifC03(t *testing.T) {
 	seed := vfSeed()
 	cases := vfN(100)
 	worlds := []*vfWorld{vfMkWorld([]int{15, 15, 15, 15})}
+	// second world (5 equal validators: +2/3 needs 4 of 5) for the directed scripts only
+	world5 := vfMkWorld([]int{15, 15, 15, 15, 15})
 	var n *vfNode
 	age := 0
 	for i := 0; i < cases; i++ {
 		r := vfFork(seed, uint64(i))
-		if n == nil || n.halted || n.dirty || age >= 30 {
+		directed := ""
+		switch i % 40 {
+		case 7:
+			directed = "f36"
+		case 27:
+			directed = "f37"
+		}
+		if directed != "" {
+			// fresh node without transaction wait; not the proposer of round 1
+			w := worlds[0]
+			if r.Chance(35) {
+				w = world5
+			}
+			me := r.Intn(len(w.keys))
+			n = vfMkNode(t, o, w, me, false, false)
+			if n.proposers(n.cs.state, n.cs.state.Validators, 1)[0] == n.me {
+				n = vfMkNode(t, o, w, (me+1)%len(w.keys), false, false)
+			}
+			age = 0
+			o.Stat("node-built")
+		} else if n == nil || n.halted || n.dirty || age >= 30 {
 			w := worlds[r.Intn(len(worlds))]
 			wait, ei := false, false
 			switch r.Intn(10) {
@@ -1470,6 +1671,23 @@ func TestVerifC03(t *testing.T) {
 		moves := 4 + r.Intn(36)
 		if r.Chance(10) {
 			moves = 60
+		}
+		if directed != "" {
+			// model-tied directed prefix, then the usual walk; the node is rebuilt afterwards
+			g.delay = false
+			ok := false
+			if directed == "f36" {
+				ok = g.f36()
+			} else {
+				ok = g.f37()
+			}
+			if ok {
+				o.Stat("directed:" + directed)
+			} else {
+				o.Stat("directed-aborted:" + directed)
+			}
+			moves = r.Intn(8)
+			n.dirty = true
 		}
 		for m := 0; m < moves && !n.halted && n.cs.Height == h0 && n.cs.Round < 30 && n.maxRound < 36; m++ {
 			g.randomMove()
